@@ -528,6 +528,43 @@ class Evaluator:
                     return r
             raise Unsupported(e)
         if isinstance(e, ast.Call) and isinstance(e.func, ast.Attribute) and e.func.attr == "join" and len(e.args) == 1 and not e.keywords \
+                and isinstance(e.func.value, ast.Constant) and isinstance(e.func.value.value, (str, bytes)) and e.func.value.value:
+            # <literal separator>.join(seq) over a modelled sequence of str / bytes
+            seq = self.ev(e.args[0])
+            try:
+                return e.func.value.value.join(bytes(x) if isinstance(x, bytearray) else x for x in seq)
+            except Exception:
+                raise Unsupported(e)
+        if isinstance(e, ast.Call) and isinstance(e.func, ast.Attribute) and e.func.attr in ("isdigit", "isdecimal", "isnumeric", "isalnum", "isalpha", "isascii", "isupper", "islower", "isspace") \
+                and not e.args and not e.keywords:
+            try:
+                v = self.ev(e.func.value)
+            except Unsupported:
+                v = None
+            if isinstance(v, (str, bytes)) and hasattr(v, e.func.attr):
+                return getattr(v, e.func.attr)()
+        if isinstance(e, ast.Call) and ast.unparse(e.func) in ("copy", "copy.copy", "deepcopy", "copy.deepcopy") and len(e.args) == 1 and not e.keywords \
+                and ast.unparse(e.func).split(".")[-1] not in self.env:
+            # copy / deepcopy of a modelled value: immutable values are themselves, sequences and model objects are copied to the stated depth
+            deep = ast.unparse(e.func).endswith("deepcopy")
+
+            def _cp(v, top=True):
+                if isinstance(v, (int, str, bytes, float, type(None), EnumMember)):
+                    return v
+                if isinstance(v, bytearray):
+                    return bytearray(v)
+                if isinstance(v, (tuple, list)):
+                    return type(v)(_cp(x, False) if deep else x for x in v)
+                if isinstance(v, dict):
+                    return {k_: (_cp(x, False) if deep else x) for k_, x in v.items()}
+                if isinstance(v, Obj) and not isinstance(v, EnumModel):
+                    o = Obj()
+                    for k_, x in v.__dict__.items():
+                        o.__dict__[k_] = _cp(x, False) if (deep and k_ != "_cls") else x
+                    return o
+                raise Unsupported(e, "copy of an unmodelled value")
+            return _cp(self.ev(e.args[0]))
+        if isinstance(e, ast.Call) and isinstance(e.func, ast.Attribute) and e.func.attr == "join" and len(e.args) == 1 and not e.keywords \
                 and ast.unparse(e.func.value) in ("b''", "bytes()", "bytearray()", "''"):
             # <empty separator>.join(seq): concatenation of a modelled sequence of bytes / str
             seq = self.ev(e.args[0])
